@@ -103,6 +103,19 @@ def rule_println_forced(ctx, crate, rule="R-PRINTLN-FORCED"):
         ctx.check(ok, rule, "api-reaches:%s" % K.meth(fn), b.name, K.fn_loc(b),
                   "every path through the public println reaches the state-level println",
                   "public println can return without printing", cfg)
+    # BarState::println hands its lines to the draw state and then *draws*: for a member of a MultiProgress the draw is what moves
+    # the text on (or, for a hidden MultiProgress, drops it). A return between the two - "no width: nothing to repaint" - leaves
+    # the text queued in the MultiProgress, to surface on whatever terminal it is given later
+    bp = K.find_one(ctx, crate, rule, r"state::BarState::println")
+    if bp:
+        feeds_ = [c.bb for c in bp.calls(r"std::vec::Vec::<T, A>::(push|extend.*|append)", r"std::iter::Extend::extend") if bp.slice_args(c, [0], through_calls=False).has_field("lines")]
+        draws_ = [c.bb for c in bp.calls(r"draw_target::Drawable::<'_>::draw")]
+        n += 1
+        ok = bool(feeds_) and bool(draws_) and all(bp.must_pass(bp.succ(f_), draws_) for f_ in feeds_)
+        ctx.check(ok, rule, "println-then-draw", bp.name, K.fn_loc(bp),
+                  "after the printed lines were handed to the draw state every path draws",
+                  "BarState::println can return after queuing its lines without drawing (e.g. for a target without a width): on a hidden MultiProgress the text stays queued "
+                  "and is painted later, on the terminal the MultiProgress is given next", cfg)
     ctx.floor(rule, n, 6, cfg, "println forcing obligations")
 
 
